@@ -145,12 +145,16 @@ class SymAny:
     def __eq__(self, o):
         if isinstance(o, SymAny):
             return mk_bool(self.t == o.t)
-        return False
+        # an opaque value compared with a typed / concrete one: the opaque value MAY be that value (a constant
+        # `False` here would silently drop the equal branch of the code under verification); the other side is
+        # injected into the opaque sort (None, bools, numbers, strings, references, small tuples, one constant per
+        # unmodelled object) and the answer is a symbolic equality
+        return mk_bool(self.t == Any.unwrap(o))
 
     def __ne__(self, o):
         if isinstance(o, SymAny):
             return mk_bool(self.t != o.t)
-        return True
+        return mk_bool(self.t != Any.unwrap(o))
 
     def __hash__(self):
         raise OutOfReach("hash of opaque symbolic value")
